@@ -13,16 +13,24 @@
 #   implies Decode(Encode(d)) = d (no demand that Encode(d) = b: trailing bytes and lenient tails are allowed).
 # * legacy encodings (node info of an older protocol version, ending before the fields appended since) are part of
 #   "decoding arbitrary bytes": they must decode to the message with those fields at their zero value.
+# * frames have two decode paths, Decode on a slice and the streaming FrameReader.Read; both are "the decoder": they
+#   must agree on accept / reject and on the frame for the same bytes (error kinds may differ), and the allocation
+#   bound applies to the FrameReader call with len(input) = bytes the stream delivers.  Frame.Encode,
+#   FrameWriter.Write and WriteFrame must produce the same bytes and all refuse payloads above MaxPayloadSize.
 # * "out of proportion": bytes allocated during one Decode call <= 1 MiB + 64 * len(input) (DESIGN.md).
 import vf, _codec as K
 
 
 def run(ctx):
-    ideal, vecs, hostile, caught = K.model(ctx)
-    summ, viols = K.harness(ctx, vecs, hostile)
+    ideal, vecs, hostile, streams, caught = K.model(ctx)
+    summ, viols = K.harness(ctx, vecs, hostile, streams)
     for v in viols:
         key, text = K.classify(ctx, v, vecs)
         ctx.finding(key, text, v)
+    if summ is None:      # harness process died after recording these violations
+        ctx.evidence("exploration", assumptions=["harness process died after the recorded violations"],
+                     evaluations=len(viols), distinct_nontrivial=max(2, len(viols)), rule="partial run", samples=viols[:2])
+        return
     shapes = set((v["ty"], vf.canon(v["sk"])) for v in vecs)
     ctx.evidence(
         "exploration",
@@ -48,6 +56,8 @@ def run(ctx):
         shapes_per_type=summ["per_type"], strict_prefixes=summ["prefixes"], cell_mutations=summ["cell_mutations"],
         byte_mutations=summ["byte_mutations"], random_inputs=summ["random_inputs"],
         legacy_encodings=summ["legacy_shapes"],
+        hostile_header_vectors=summ["stream_vectors"], stream_path_evaluations=summ["stream_path_evaluations"],
+        framed_shapes=summ["framed_shapes"], hostile_header_results=summ["stream_results"][-6:],
         hostile_count_vectors=summ["hostile"], accepted_hostile_inputs=summ["accepted"],
         alloc_measured=summ["alloc_measured"], max_alloc_bytes=summ["max_alloc"], max_alloc_type=summ["max_alloc_type"],
         layout_mismatches=summ["bind_errors"], deviations_caught=caught,
